@@ -30,19 +30,28 @@ pub fn gen_world(seed: u64, idx: u64, s: &dyn SuiteOps) -> World {
     let pw = small_pw(&mut g);
     let cred = small_cred(&mut g);
     let ksf = gen_ksf(&mut g, fam, true);
-    // explicit identities, so that only the key differs; or defaults
-    let explicit = g.chance(1, 2);
+    // identities: so that only the key differs. Modes: default / explicit-default
+    // spellings, both explicit, server-only, client-only, long (> one hash block)
+    let idmode = g.below(6);
+    let (lu, ls) = (100 + g.below(200), 100 + g.below(200));
+    let long_u = g.bytes(lu);
+    let long_s = g.bytes(ls);
+    let explicit = idmode == 1;
     let mk = |g: &mut Gen, rec: Option<u32>, setup: u32| -> WIds {
-        if explicit {
-            WIds { client: IdSpec::Bytes(b"alice".to_vec().into()), server: IdSpec::Bytes(b"server.example".to_vec().into()) }
-        } else {
-            WIds {
+        let b = |x: &[u8]| IdSpec::Bytes(x.to_vec().into());
+        match idmode {
+            1 => WIds { client: b(b"alice"), server: b(b"server.example") },
+            2 => WIds { client: IdSpec::Absent, server: b(b"server.example") },
+            3 => WIds { client: b(b"alice"), server: IdSpec::Absent },
+            4 => WIds { client: b(&long_u), server: b(&long_s) },
+            5 => WIds { client: IdSpec::Absent, server: b(&long_s) },
+            _ => WIds {
                 client: match rec {
                     Some(r) if g.chance(1, 3) => IdSpec::ClientPkOf(r),
                     _ => IdSpec::Absent,
                 },
                 server: if g.chance(1, 3) { IdSpec::ServerPkOf(setup) } else { IdSpec::Absent },
-            }
+            },
         }
     };
     let reg_ids = mk(&mut g, None, s_real);
